@@ -317,7 +317,89 @@ def r20_7(ctx):
     ctx.ob('R20.7', 'BaseProxy._after_fork:takes-a-reference', ok, af, None, '_after_fork calls self._incref()')
 
 
+
+def _proxy_classes(m):
+    out = []
+    for qn, ci in sorted(m.classes.items()):
+        if ci.module.name != 'managers':
+            continue
+        seen, todo = set(), [ci]
+        while todo:
+            c = todo.pop()
+            if c.qual in seen:
+                continue
+            seen.add(c.qual)
+            todo.extend(c.bases)
+        if any(s.endswith(':BaseProxy') for s in seen) or any('MakeProxyType' in b or b.startswith('Base') and b.endswith('Proxy')
+                                                              for b in ci.base_names):
+            out.append(ci)
+    return out
+
+
+def r20_13(ctx):
+    ctx.rule('R20.13', 'an in-place operator of a proxy is one request to the server (one operation on the referent, '
+                       'atomic against other clients), on every path', floor=2)
+    m = ctx.model
+    n_ = 0
+    for ci in _proxy_classes(m):
+        for name, fi in sorted(ci.methods.items()):
+            if not (name.startswith('__i') and name.endswith('__') and name not in ('__init__', '__iter__', '__int__',
+                                                                                     '__index__', '__invert__')):
+                continue
+            cm = {n.id for (n, c) in q.calls(fi, 'self._callmethod')}
+            if not cm:
+                continue
+            n_ += 1
+            r = fi.cfg.count_range([fi.cfg.entry], [fi.cfg.exit], lambda n: n.id in cm, skip_labels=('x',))
+            ctx.ob('R20.13', '%s.%s:one-request' % (ci.name, name), r == (1, 1), fi, None,
+                   'self._callmethod(...) once on every path: min,max = %r' % (r,) if r == (1, 1) else
+                   'the operation is sent as %s requests: another client can see, or write into, the half-done result'
+                   % ('several' if r[1] != 1 else 'zero or one'))
+    q.need(n_ >= 2, 'no in-place proxy operators found')
+
+
+def r20_14(ctx):
+    ctx.rule('R20.14', 'a proxy method hands the referent the arguments it was called with: what it puts into the '
+                       'request are its own parameters (and attribute names), not values made up on the way -- the '
+                       'referent types disagree about what a made-up value means', floor=10)
+    m = ctx.model
+    n_ = 0
+    for ci in _proxy_classes(m):
+        for name, fi in sorted(ci.methods.items()):
+            for (n, c) in q.calls(fi, 'self._callmethod'):
+                if len(c.args) < 2:
+                    continue
+                n_ += 1
+                e = ast.parse(q.expand(fi, c.args[1]), mode='eval').body
+                tuples = []
+                todo = [e]
+                while todo:
+                    x = todo.pop()
+                    if isinstance(x, ast.IfExp):
+                        todo += [x.body, x.orelse]
+                    else:
+                        tuples.append(x)
+                assigned = fi.assigned_names()
+                bad = None
+                for t in tuples:
+                    elts = t.elts if isinstance(t, ast.Tuple) else [t]
+                    for el in elts:
+                        if isinstance(el, ast.Starred):
+                            el = el.value
+                        if isinstance(el, ast.Constant) and isinstance(el.value, str):
+                            continue
+                        if isinstance(el, ast.Name) and el.id in fi.params and not assigned.get(el.id):
+                            continue
+                        bad = bad or el
+                ctx.ob('R20.14', '%s.%s:forwards-its-own-arguments' % (ci.name, name), bad is None, fi, c,
+                       'request arguments are the method\'s parameters' if bad is None else
+                       '`%s` goes into the request instead of what the caller passed' % ast.unparse(bad)[:40])
+    q.need(n_ >= 5, 'proxy methods with arguments not found')
+
+
 def run(ctx):
+    r20_13(ctx)
+    r20_14(ctx)
     r20_12(ctx)
     r20_10(ctx)
     r20_7(ctx)
@@ -343,6 +425,8 @@ def run(ctx):
 
 _M = 'billiard/managers.py'
 MUTANTS = [
+    ('iadd-sends-items-one-by-one', 'billiard/managers.py', "        self._callmethod('extend', (value,))\n        return self\n", "        for item in value:\n            self._callmethod('append', (item,))\n        return self\n", 'R20.13'),
+    ('acquire-makes-up-a-timeout', 'billiard/managers.py', "        args = (blocking, ) if timeout is None else (blocking, timeout)\n", "        args = (blocking, -1) if timeout is None else (blocking, timeout)\n", 'R20.14'),
     ('incref-skipped-for-a-known-referent', _M, "    def _incref(self):\n        conn = self._Client(self._token.address, authkey=self._authkey)\n",
      "    def _incref(self):\n        if self._id in self._idset:\n            return\n        conn = self._Client(self._token.address, authkey=self._authkey)\n", 'R20.10'),
     ('after-fork-hook-only-with-incref', _M, "        if incref:\n            self._incref()\n\n        util.register_after_fork(self, BaseProxy._after_fork)\n",
